@@ -281,6 +281,141 @@ def dependency_table(fn_node, resolver=None, opaque=lambda call: False) -> Depen
     return v
 
 
+# --------------------------------------------------------------------------------------------- (c) the switch hierarchy
+
+class HierarchyVerdict:
+    def __init__(self):
+        self.paths = 0
+        self.leaves: list = []
+        self.full = False  # the whole hierarchy was compared (deciders present as calls, other conditions are predicates of the form)
+        self.enabled_unguarded = None  # witness: the form's own `enabled` decides although the form carries no `optional`
+        self.differs = None  # witness: differs from the documented hierarchy
+
+
+def requires_table(fn_node, deciders: dict, resolver=None) -> HierarchyVerdict:
+    """`requires_value` on every assignment of its elementary conditions.
+
+    deciders: function name -> 'group_req' | 'dep_req' (calls `f(ui_json, parameter)` that stay elementary conditions).
+
+    Clause N (always decided, whatever was inlined or extracted): the form's own `enabled` member influences the result only
+    when the form carries an `optional` member.
+    Clause H (decided when the two deciders are still calls and every other condition is a predicate of the form alone): for
+    each value of those predicates the function is the documented hierarchy
+
+        False if "group" in form and not group switch  else  dependency rule if "dependency" in form
+        else  own `enabled` (default True) if "optional" in form  else  True
+
+    or constantly True (not a form)."""
+    a = fn_node.args
+    ps = [x.arg for x in a.posonlyargs + a.args]
+    if len(ps) < 2:
+        raise AnalysisError("requires_value: (ui_json, parameter) signature not recognised")
+    forms = _Forms(ps[0], ps[1])
+
+    def leaf(e):
+        if isinstance(e, ast.Call) and isinstance(e.func, ast.Name) and e.func.id in deciders and not e.keywords and len(e.args) == 2 \
+                and all(isinstance(x, ast.Name) for x in e.args) and [x.id for x in e.args] == ps[:2]:
+            return (deciders[e.func.id], False)
+        r = forms.read(e)
+        if r is None or r[0] != "form":
+            return None
+        _, m, how, dflt = r
+        if how == "in":
+            return ({"group": "has_group", "dependency": "has_dep", "optional": "has_opt"}.get(m, f"in:{m}"), False)
+        if m == "enabled":
+            if how == "get" and isinstance(dflt, ast.Constant) and dflt.value is True:
+                return ("enabled", False)
+            return (f"enabled:{how}" + (f":default={unparse(dflt)}" if dflt is not None else ""), False)
+        return None
+
+    outs = Executor(resolver).run(fn_node)
+    v = HierarchyVerdict()
+    v.paths = len(outs)
+    if not any(o.kind == "return" for o in outs):
+        raise AnalysisError("requires_value: no returning path")
+    rec = _Recorder()
+    for o in outs:
+        for e, _ in o.conds:
+            evalb(e, rec, leaf)
+        if o.kind == "return" and o.value is not None:
+            evalb(o.value, rec, leaf)
+    spec_leaves = ("has_group", "group_req", "has_dep", "dep_req", "has_opt", "enabled")
+    extra = sorted(k for k in rec if k not in spec_leaves)
+    leaves = list(spec_leaves) + extra
+    v.leaves = leaves
+    if len(leaves) > 14:
+        raise AnalysisError(f"requires_value: {len(leaves)} elementary conditions — not enumerated")
+    table = {}
+    for bits in itertools.product((False, True), repeat=len(leaves)):
+        val = dict(zip(leaves, bits))
+        res = set()
+        for o in outs:
+            if all(evalb(e, val, leaf) == pol for e, pol in o.conds):
+                if o.kind == "return":
+                    res.add(evalb(o.value, val, leaf) if o.value is not None else False)
+                else:
+                    res.add(False if o.kind == "fall" else "raise")
+        if len(res) != 1:
+            raise AnalysisError("requires_value: the paths do not partition the conditions (loop / handler in the rule: not understood)")
+        table[bits] = res.pop()
+
+    def show(bits):
+        return ", ".join(f"{k}={'T' if x else 'F'}" for k, x in zip(leaves, bits) if not k.startswith("x:"))
+
+    # N: without an `optional` member the own `enabled` reads decide nothing
+    i_opt = leaves.index("has_opt")
+    for i, k in enumerate(leaves):
+        if not (k == "enabled" or k.startswith("enabled:")):
+            continue
+        for bits, r in table.items():
+            if not bits[i_opt] and not bits[i]:
+                other = bits[:i] + (True,) + bits[i + 1:]
+                if table[other] != r:
+                    v.enabled_unguarded = show(bits)
+                    break
+        if v.enabled_unguarded:
+            break
+    # H
+    foreign = [k for k in extra if k.startswith("x:")]
+
+    def form_predicate(k):
+        """`f(form)` / `f(form, <things that mention neither ui_json nor the parameter>)`, e.g. is-a-form tests, isinstance(form, dict)"""
+        e = rec.exprs.get(k)
+        if not (isinstance(e, ast.Call) and isinstance(e.func, ast.Name) and e.args and forms.own(e.args[0]) and not e.keywords):
+            return False
+        return not any(isinstance(y, ast.Name) and y.id in ps[:2] for x in e.args[1:] for y in ast.walk(x))
+
+    def depends(k):
+        i = leaves.index(k)
+        return any(table[b] != table[b[:i] + (not b[i],) + b[i + 1:]] for b in table)
+
+    v.full = depends("group_req") and depends("dep_req") and all(k.startswith("x:") and form_predicate(k) for k in extra)
+    if v.full and not v.enabled_unguarded:
+        def hier(val):
+            if val["has_group"] and not val["group_req"]:
+                return False
+            if val["has_dep"]:
+                return val["dep_req"]
+            return val["enabled"] if val["has_opt"] else True
+
+        n_spec = len(spec_leaves)
+        by_g: dict = {}
+        for bits, r in table.items():
+            by_g.setdefault(bits[n_spec:], []).append((bits, r))
+        some_h = False
+        for g, rows in by_g.items():
+            is_h = all(r == hier(dict(zip(leaves, bits))) for bits, r in rows)
+            is_true = all(r is True for _, r in rows)
+            some_h = some_h or is_h
+            if not (is_h or is_true):
+                bad = next(bits for bits, r in rows if r != hier(dict(zip(leaves, bits))))
+                v.differs = show(bad) + f" -> {table[bad]}"
+                break
+        if not some_h and v.differs is None:
+            v.differs = "no form follows the hierarchy"
+    return v
+
+
 # --------------------------------------------------------------------------------------------- (b) association kinds
 
 def _names(t):
